@@ -65,6 +65,7 @@ def write(prop, tier, seed, results, meta, wall, n_viol, known_hits, inconclusiv
             'bounds': meta.get('bounds', []),
             'outside_bounds': meta.get('outside', []),
             'queries': {'sat': sat, 'unsat': unsat, 'unknown': unknown, 'answered_from_cache_of_identical_queries': sum(r.get('cached', 0) for r in results)},
+            'claims_rechecked_with_cvc5': sum(r.get('cross', 0) for r in results),
             'solver_time_s': round(sum(r.get('solver_time', 0) for r in results), 2),
             'paths_pruned_or_aborted': aborted,
             'claims': claims,
